@@ -60,14 +60,14 @@ def coq_str(s):
     return '"%s"%%string' % s.replace('"', '""')
 
 # ---------------------------------------------------------------------------------- generation
-def regenerate(genmods):
+def regenerate(genmods, pid=None):
     """Run the generator modules; write coq/gen files when their text changed.
     Returns list of refusals (strings)."""
     refusals = []
     for modname in genmods:
         mod = __import__(modname)
         try:
-            files = mod.generate(REPO)
+            files = mod.generate_for(REPO, pid) if hasattr(mod, 'generate_for') else mod.generate(REPO)
         except Refuse as e:
             refusals.append('%s: translator refused: %s' % (modname, e))
             continue
